@@ -46,6 +46,11 @@ func jcsCall(p []byte) (reply []byte) {
 	} else {
 		out, err = canonicalizer.MarshalCanonical(p[1:])
 	}
+	// state must not leak from one canonicalization into the next one of the same process (whatever the outcome of this one)
+	const probeIn, probeOut = `{"b":2,"a":{"d":[1,{"e":null,"c":"x"}],"":[]}}`, `{"a":{"":[],"d":[1,{"c":"x","e":null}]},"b":2}`
+	if po, perr := canonicalizer.MarshalCanonical([]byte(probeIn)); perr != nil || string(po) != probeOut {
+		return []byte(fmt.Sprintf("PANIC:state leaked between calls: after this input the probe document %s canonicalizes to %q (err=%v), expected %s", probeIn, po, perr, probeOut))
+	}
 	if err != nil {
 		return []byte("ERR:" + err.Error())
 	}
@@ -68,7 +73,7 @@ func treesEqual(a, b interface{}) bool {
 }
 
 func checkC07(c *hx.Ctx) {
-	c.Rule("value trees: exhaustive over all ordered pairs and a third of triples of 30 tricky keys (UTF-16 vs code-point order, controls, escapes), all scalars (30 strings, 30 boundary numbers, literals) in arrays and objects, nested to depth 2, plus random deeper trees; each tree in 6 re-serializations (member order, whitespace, \\u escapes both hex cases, surrogate pairs, \\/, number spellings) through MarshalCanonical([]byte) and, for the value path, MarshalCanonical(value); oracle: output == independent RFC 8785 serialization of the tree (Go reference; Python reference cross-checks every accepted document and every number), fixed point, parses back to the same value; doubles by random bit pattern; rejection classes (duplicate names incl. escaped spelling, truncation at every byte, invalid escapes, lone surrogates in all shapes, raw control characters, trailing content after top-level objects and after top-level arrays) must return an error; executed in crash-isolated workers; non-trivial = tree with >=2 members or a non-integer number; distinct = distinct input byte strings")
+	c.Rule("value trees: exhaustive over all ordered pairs and a third of triples of 30 tricky keys (UTF-16 vs code-point order, controls, escapes), all scalars (30 strings, 30 boundary numbers, literals) in arrays and objects, nested to depth 2, plus random deeper trees; each tree in 6 re-serializations (member order, whitespace, \\u escapes both hex cases, surrogate pairs, \\/, number spellings) through MarshalCanonical([]byte) and, for the value path, MarshalCanonical(value); oracle: output == independent RFC 8785 serialization of the tree (Go reference; Python reference cross-checks every accepted document and every number), fixed point, parses back to the same value; doubles by random bit pattern; rejection classes (duplicate names incl. escaped spelling, truncation at every byte, invalid escapes, lone surrogates in all shapes, raw control characters, trailing content after top-level objects and after top-level arrays) must return an error; after every call (accepted or rejected) the same process canonicalizes a fixed probe document, which must come out unchanged (no state leaking between calls); executed in crash-isolated workers; non-trivial = tree with >=2 members or a non-integer number; distinct = distinct input byte strings")
 	c.Assume("references: harness/ref/jcs.go (Go, strconv shortest digits) and pyref/jcs_ref.py (Python repr digits); invalid UTF-8 and lenient number spellings are out of the statement's scope")
 	pool := hx.NewPool(c, "jcs", 16, 4*1024*1024, 30*time.Second)
 	defer pool.Close()
